@@ -696,15 +696,17 @@ theorem ast2ast_preserved_eq (p : SProg) (hp : okProg p = true) (L : List SStmt)
 open QV.A2A in
 /-- the list the statement rewriter returns is the result of the whole pass `ast2ast` when the two
 constant-folding passes and the multi-target pass have nothing to do -/
-theorem ast2ast_of_rw (aargs : Args) (body L : List SStmt) (st : RSt)
+theorem ast2ast_of_rw (aargs : Args) (ret : Option SExp) (body L : List SStmt) (st : RSt)
     (hres : rejectReserved (aargs.map (·.1)) body = .ok ()) (hf1 : foldSs body = .ok body)
-    (hargs : replaceArgs aargs = .ok aargs)
+    (hargs : replaceArgs aargs = .ok aargs) (hret : replaceRet ret = .ok ret)
+    (hann : visitAnns (initSt aargs) (aargs.map (·.2)) = .ok ())
     (hmt : mtSs body = .ok body) (hrw : (rwSs [] body).run (initSt aargs) = .ok (L, st))
-    (hf2 : foldSs L = .ok L) : ∃ log, ast2ast aargs body = .ok (L, log) := by
-  have : ast2ast aargs body = .ok (L, st.log ++ (if body != body then ["fold-pre"] else [])
+    (hvr : visitRet st ret = .ok ())
+    (hf2 : foldSs L = .ok L) : ∃ log, ast2ast aargs ret body = .ok (L, log) := by
+  have : ast2ast aargs ret body = .ok (L, st.log ++ (if body != body then ["fold-pre"] else [])
       ++ (if body != body then ["multitarget"] else []) ++ (if L != L then ["fold-post"] else [])) := by
     unfold ast2ast
-    simp only [hres, hf1, hargs, hmt, hrw, hf2, bind, Except.bind, pure, Except.pure]
+    simp only [hres, hf1, hargs, hret, hann, hmt, hrw, hvr, hf2, bind, Except.bind, pure, Except.pure]
   exact ⟨_, this⟩
 
 open QV.A2A in
@@ -722,13 +724,14 @@ theorem C01_if (p : SProg) (hp : okProg p = true) (L : List SStmt) (st : RSt)
     (consts : List (Bool × Bool)) (hg : Sem.guardedLine ⟨p.args, p.ret, L.map toStmt⟩ = true)
     (defs : List (String × BExp)) (events : List String)
     (htr : translate Quirks.none consts ⟨p.args, p.ret, L.map toStmt⟩ = .ok (defs, events)) (ρ : Env) :
-    (∃ log, ast2ast (aargsOf p) p.body = .ok (L, log)) ∧
+    (∃ log, ast2ast (aargsOf p) (some (tyAnn p.ret)) p.body = .ok (L, log)) ∧
     ∃ sv, execProg p ρ = some sv ∧ (p.ret.names "_ret").map (runDefs defs ρ) = sv.bits ∧
       ∀ xv, Sem.semProgX ⟨p.args, p.ret, L.map toStmt⟩ ρ = some xv →
         Sem.Agree xv sv ∧
         ∀ (i : Nat) (b : Bool), xv.claim[i]? = some (some b) →
           ∀ name, (p.ret.names "_ret")[i]? = some name → runDefs defs ρ name = b := by
-  refine ⟨ast2ast_of_rw _ _ L st hres hf1 (replaceArgs_aargsOf p) hmt hrw hf2, ?_⟩
+  refine ⟨ast2ast_of_rw _ _ _ L st hres hf1 (replaceArgs_aargsOf p) (replaceRet_tyAnn p.ret)
+    (visitAnns_aargsOf _ p) hmt hrw (visitRet_tyAnn st p.ret) hf2, ?_⟩
   obtain ⟨sv, hs, hbits, hx⟩ := C01_guarded ⟨p.args, p.ret, L.map toStmt⟩ consts hg defs events htr ρ
   exact ⟨sv, ast2ast_if_preserved p hp L st hrw ρ sv hs, hbits, hx⟩
 
@@ -766,7 +769,7 @@ theorem C01_for (p : SProg) (hp : okProg p = true) (L : List SStmt) (st : RSt)
     (consts : List (Bool × Bool)) (hg : Sem.guardedLine ⟨p.args, p.ret, L.map toStmt⟩ = true)
     (defs : List (String × BExp)) (events : List String)
     (htr : translate Quirks.none consts ⟨p.args, p.ret, L.map toStmt⟩ = .ok (defs, events)) (ρ : Env) :
-    (∃ log, ast2ast (aargsOf p) p.body = .ok (L, log)) ∧
+    (∃ log, ast2ast (aargsOf p) (some (tyAnn p.ret)) p.body = .ok (L, log)) ∧
     ∃ sv, execProg p ρ = some sv ∧ (p.ret.names "_ret").map (runDefs defs ρ) = sv.bits :=
   let ⟨h1, sv, h2, h3, _⟩ := C01_if p hp L st hres hf1 hmt hrw hf2 consts hg defs events htr ρ
   ⟨h1, sv, h2, h3⟩
